@@ -40,7 +40,8 @@ def main():
         st = common.ProofStatus()
     else:
         try:
-            st = common.prepare(prop, getattr(mod, 'EXTRA_TARGETS', ()), getattr(mod, 'EXTRA_EXTRACTORS', ()))
+            st = common.prepare(prop, getattr(mod, 'EXTRA_TARGETS', ()), getattr(mod, 'EXTRA_EXTRACTORS', ()),
+                                getattr(mod, 'TRANSPORT', None))
         except Exception:
             traceback.print_exc()
             print(f'INFRASTRUCTURE: build step failed for {prop}')
